@@ -3,12 +3,16 @@
   `harness/dyn_gen.flatten_variant` builds when it replaces every nested scheduler by its jobs — the entry jobs of a
   nested scheduler inherit its requirements, whoever required it requires its exit jobs instead.
   `ajdriver flatreq` prints `flatReq` for a configuration; the C10 check compares it with the twin the harness runs.
-  The theorems about it are in `Proofs/FlatEq.lean`, `Proofs/FlatB.lean`, `Proofs/FlatC.lean`.
+  Then the other executable definitions in the statement of C10 (d) (`Proofs.FlatC.flatten_same_times`): the start-time
+  equations `Timing.Sat`, the instants `timingOf` read off a history of layer B (`firstNow`, `beganP`, `endedP`) and the
+  decidable form `plainCheck` of its hypotheses on a history; `ajdriver timing` prints them for a translated trace.
+  Definitions only: the theorems are in `Proofs/FlatEq.lean`, `Proofs/FlatB.lean`, `Proofs/FlatC.lean`.
   Core Lean only.
 -/
 import AJ.Model.Run
+import AJ.Model.Full
 namespace AJ.Flat
-open AJ.Run
+open AJ.Run AJ.Full
 
 /-- every scheduler but possibly the top one owns a job (the class `flatten_variant` accepts) -/
 def noEmptyNested (c : Cfg) : Bool :=
@@ -33,5 +37,85 @@ def flatReq (c : Cfg) : Nat → Nat → List Nat
     if j = 0 then []
     else if (c.req j).isEmpty then flatReq c fuel (c.parent j)
     else (c.req j).flatMap (exitsOf c c.n)
+
+/-! ### the start-time equations (theorems: `Proofs/FlatEq.lean`) -/
+
+/-- largest element, `0` for the empty list -/
+def sup (l : List Nat) : Nat := l.foldl max 0
+
+structure Timing where
+  /-- instant at which the body of the job (the run of the scheduler) begins -/
+  B : Nat → Nat
+  /-- instant at which it ends -/
+  E : Nat → Nat
+
+/-- the start-time equations of configuration `c` for body durations `dur` -/
+structure Timing.Sat (c : Cfg) (dur : Nat → Nat) (t : Timing) : Prop where
+  begin_   : ∀ j, 0 < j → j < c.n → t.B j = max (t.B (c.parent j)) (sup ((c.req j).map t.E))
+  endJob   : ∀ j, 0 < j → j < c.n → c.isSched j = false → t.E j = t.B j + dur j
+  endSched : ∀ s, s < c.n → c.isSched s = true → t.E s = max (t.B s) (sup ((c.children s).map t.E))
+
+/-! ### the instants read off a history of layer B (theorems: `Proofs/FlatB.lean`, `Proofs/FlatC.lean`;
+  `ajdriver timing` prints them) -/
+
+/-- the clock in the first state, along the run of `evs` from `st`, that satisfies `P` (`none`: there is none) -/
+def firstNow (c : Cfg) (P : StB → Bool) : StB → List EvB → Option Nat
+  | st, [] => if P st then some st.a.now else none
+  | st, e :: es =>
+    if P st then some st.a.now else
+    match stepB c st e with
+    | some st' => firstNow c P st' es
+    | none => none
+
+/-- the body of job `j` (the run of scheduler `j`) has begun: `_running`, set in the very step in which the job
+    obtains its slot and its body is entered (`grant j`; `runBegin` for the top-level scheduler `0`), never reset.
+    For a scheduler this is `pcB j ≠ .notBegun` (`beganP_sched`), for an atomic job "the task is executing or has
+    finished" (`beganP_iff`). -/
+def beganP (j : Nat) (st : StB) : Bool := st.a.rflag j
+
+/-- the task of job `j` has finished: it returned, raised or was cancelled -/
+def finished : Ph → Bool
+  | .done _ => true
+  | .cancelled => true
+  | _ => false
+
+/-- the body of job `j` has ended; for a scheduler (the top-level one included): its run is over and its task
+    has finished, it is a finished job of its parent (`endedP_sched`: this is `pcB j = .over`) -/
+def endedP (j : Nat) (st : StB) : Bool := finished (st.a.ph j)
+
+/-- the instants at which the jobs began and ended in the history `evs` (`0` for what never happens) -/
+def timingOf (c : Cfg) (evs : List EvB) : Timing where
+  B := fun j => (firstNow c (beganP j) StB.init evs).getD 0
+  E := fun j => (firstNow c (endedP j) StB.init evs).getD 0
+
+/-- the time each body took -/
+def durOf (c : Cfg) (evs : List EvB) : Nat → Nat := fun j => (timingOf c evs).E j - (timingOf c evs).B j
+
+/-! ### decidable forms of the hypotheses of `Proofs.FlatC.flatten_same_times` on a history -/
+
+/-- no body raises -/
+def okCheck (evs : List EvB) : Bool :=
+  evs.all fun e => match e with | .bodyEnd _ ok => ok | _ => true
+
+/-- no orchestration fails -/
+def nfCheck (evs : List EvB) : Bool :=
+  evs.all fun e => match e with | .orchFail _ => false | _ => true
+
+/-- no shutdown handler is pending in a state in which the clock advances -/
+def zeroCheck (c : Cfg) : StB → List EvB → Bool
+  | _, [] => true
+  | st, e :: es =>
+    (match e with
+     | .tick _ => (List.range c.n).all fun k => st.hph k != .hactive
+     | _ => true) &&
+    (match stepB c st e with
+     | some st' => zeroCheck c st' es
+     | none => true)
+
+/-- a decidable form of `PlainRun` (`Proofs/FlatC.lean`: `plainCheck_spec`) -/
+def plainCheck (c : Cfg) (evs : List EvB) : Bool :=
+  c.wf && ((acceptB c StB.init evs).map fun st => decide (st.pcB 0 = .over)) == some true &&
+  ((List.range c.n).all fun j => c.window j == 0 && c.timeout j == none && c.forever j == false) &&
+  okCheck evs && nfCheck evs && zeroCheck c StB.init evs
 
 end AJ.Flat
